@@ -549,3 +549,14 @@ impl Ctx {
         STOP.store(true, std::sync::atomic::Ordering::SeqCst);
     }
 }
+
+/// Directory of the crate under test inside the scratch copy. The engine passes the scratch copy's root at run time
+/// (VERIF_REPO_ROOT): a test binary that cargo judged fresh although it was compiled in another - identical, since
+/// removed - scratch copy must not look for the corpus where it was compiled. Falls back to the compile-time path.
+pub fn crate_dir(compiled_manifest_dir: &str) -> std::path::PathBuf {
+    let compiled = std::path::Path::new(compiled_manifest_dir);
+    match (std::env::var("VERIF_REPO_ROOT"), compiled.file_name()) {
+        (Ok(root), Some(krate)) if !root.is_empty() => std::path::Path::new(&root).join(krate),
+        _ => compiled.to_path_buf(),
+    }
+}
